@@ -645,4 +645,35 @@ def _inward_sites(prog, fn):
                 g3 = d.args[2] if len(d.args) >= 3 else kw(d, "tol")
                 grid_t = canon(g3) if g3 is not None and not (isinstance(g3, ast.Constant) and g3.value is None) else canon(d.args[1])
         out.append((var, r, v.right, rel, sign, s, grid_t))
+    # the same correction as a selection: v = np.where(v < b, v + t, v)
+    for t, v, s, k in iter_stores(fn.node):
+        if not (isinstance(t, ast.Name) and isinstance(v, ast.Call) and call_name(v) == "np.where" and len(v.args) == 3 and not v.keywords):
+            continue
+        cmp_, yes, no = v.args
+        var = t.id
+        if isinstance(cmp_, ast.Name):
+            md = reaching_assignments(prog, fn, cmp_.id, s)
+            if len(md) == 1 and isinstance(md[0], ast.Compare):
+                cmp_ = md[0]
+        if not (isinstance(cmp_, ast.Compare) and len(cmp_.ops) == 1 and canon(no) == var and isinstance(yes, ast.BinOp) and isinstance(yes.op, (ast.Add, ast.Sub)) and canon(yes.left) == var):
+            continue
+        l, r = cmp_.left, cmp_.comparators[0]
+        op = type(cmp_.ops[0])
+        if canon(l) != var:
+            if canon(r) == var:
+                l, r = r, l
+                op = {ast.Lt: ast.Gt, ast.Gt: ast.Lt, ast.LtE: ast.GtE, ast.GtE: ast.LtE}.get(op, op)
+            else:
+                continue
+        rel = {ast.Lt: "<", ast.Gt: ">", ast.LtE: "<=", ast.GtE: ">="}.get(op)
+        if rel is None:
+            continue
+        sign = "+" if isinstance(yes.op, ast.Add) else "-"
+        grid_t = None
+        # the definition of var that the selection reads (the one reaching the np.where statement's operands)
+        for d in reaching_assignments(prog, fn, var, v):
+            if isinstance(d, ast.Call) and len(d.args) >= 2 and any(isinstance(x, FunctionInfo) and x.name == "force_to_grid" for x in prog.resolve_call(fn, d)):
+                g3 = d.args[2] if len(d.args) >= 3 else kw(d, "tol")
+                grid_t = canon(g3) if g3 is not None and not (isinstance(g3, ast.Constant) and g3.value is None) else canon(d.args[1])
+        out.append((var, r, yes.right, rel, sign, s, grid_t))
     return out
